@@ -57,11 +57,13 @@ Fixpoint fast_hex (s : pystr) : pystr :=
   | [] => []
   | Ascii b0 b1 b2 b3 b4 b5 b6 b7 :: r => hexd b4 b5 b6 b7 :: hexd b0 b1 b2 b3 :: fast_hex r
   end.
-(* what travels to the harness: salted digests of the rendering (H is the harness's blake2b oracle; four salts so that
-   a one-byte digest size still compares 32 bits) *)
+(* what travels to the harness: salted digests of the rendering (H is the harness's blake2b oracle; the text is cut in four
+   salted quarters so that a one-byte digest size still compares 32 bits) *)
 Definition tdig (H : pystr -> pystr) (v : sval) : term :=
   let r := render v [] in
-  TStr (H ("0"%char :: r) ++ H ("1"%char :: r) ++ H ("2"%char :: r) ++ H ("3"%char :: r)).
+  let n := Nat.div (length r) 4 in
+  TStr (H ("0"%char :: firstn n r) ++ H ("1"%char :: firstn n (skipn n r))
+        ++ H ("2"%char :: firstn n (skipn (2 * n) r)) ++ H ("3"%char :: skipn (3 * n) r)).
 (* printed as the constructor name H<hex>: Base.Term's string printer converts every byte through unary nat *)
 Definition tsval (v : sval) : term := TCon ("H"%char :: fast_hex (render v [])) [].
 
